@@ -765,12 +765,16 @@ def _nm(v):
 
 
 # ====================================================================================================================
-def companion_rules(repo, chk):
+def companion_rules(repo, chk, rule="R-C05-8", branch_rule=None):
     """R-C05-8 (T3, bounded to one fixture model).  A control `IF cond THEN valve SETTING x` (or pump SPEED) only takes effect if the link is also put
     into the status in which the value applies; the simulator adds a companion status control for that.  The priority exception of the property ("unless
     a triggered control of equal or higher priority conflicts") is decided among the controls THE SIMULATOR RUNS, so the companion must compete with
     exactly the weight of its original: same condition object (it fires at the same instants), same class (simple control / rule), same priority and the
-    same control type (it is checked in the same phase)."""
+    same control type (it is checked in the same phase).
+
+    With `branch_rule` (hosted by C03 as R-C03-4) only the branch fact is emitted: a rule's ELSE action `ELSE VALVE v SETTING x` acts when the condition is
+    FALSE, so its companion must act on the ELSE branch as well (EPANET puts the valve into the status together with the setting, on the branch that sets it);
+    a companion attached to the THEN branch activates the valve when the condition is TRUE and leaves it closed when the setting is actually changed."""
     from ..concrete import Instance, ProgramError, Unsupported
     from .c13 import model_world, build_fixture_model
     vfn = repo.func(CORE, "WNTRSimulator._get_valve_controls")
@@ -801,6 +805,7 @@ def companion_rules(repo, chk):
         made = {"setting": list(I.getattr_(sim, "_get_valve_controls")()), "base_speed": list(I.getattr_(sim, "_get_pump_controls")())}
         LS = world.overrides["wntr.network.base.LinkStatus"]
         n = 0
+        taken = {}
         for cname, control in list(call(wn, "controls")):
             for action in call(control, "actions"):
                 tgt, attr = call(action, "target")
@@ -816,7 +821,23 @@ def companion_rules(repo, chk):
                     if len(acts) == 1 and call(acts[0], "target")[0] is tgt and call(acts[0], "target")[1] == "status":
                         comps.append((k, acts[0]))
                 fn_ = vfn if attr == "setting" else pfn
-                chk.expect(len(comps) >= 1, "R-C05-8", "%s has a companion status control on the same condition" % what, loc(fn_),
+                if branch_rule is not None:
+                    if control._cls.name != "Rule" or not comps:
+                        continue
+                    in_else = any(a is action for a in I.getattr_(control, "_else_actions"))
+                    seen_key = (id(control), id(tgt))
+                    nth = taken.get(seen_key, 0)              # the n-th action of this rule on this link goes with the n-th companion built for it
+                    taken[seen_key] = nth + 1
+                    k, act = comps[min(nth, len(comps) - 1)]
+                    k_else = any(a is act for a in I.getattr_(k, "_else_actions"))
+                    k_then = any(a is act for a in I.getattr_(k, "_then_actions"))
+                    chk.expect((k_else and not k_then) if in_else else (k_then and not k_else), branch_rule,
+                               "the status companion of %s (%s action) acts on the %s branch of the rule" % (what, "an ELSE" if in_else else "a THEN", "ELSE" if in_else else "THEN"), loc(fn_),
+                               "EPANET changes setting and status together, on the branch that carries the action; a companion on the other branch activates the link when the "
+                               "setting is NOT changed and leaves it closed when it is", expected="ELSE" if in_else else "THEN",
+                               found="THEN" if k_then and not k_else else ("ELSE" if k_else and not k_then else "both / neither"))
+                    continue
+                chk.expect(len(comps) >= 1, rule, "%s has a companion status control on the same condition" % what, loc(fn_),
                            "without it a closed valve / pump stays closed although its setting / speed was changed", found="%d companion(s)" % len(comps))
                 if not comps:
                     continue
@@ -826,15 +847,15 @@ def companion_rules(repo, chk):
                          ("control type", str(I.getattr_(k, "epanet_control_type")), str(I.getattr_(control, "epanet_control_type"))),
                          ("status", I.getattr_(act, "_value"), want_status)]
                 bad = ["%s %s (original: %s)" % (f, g, w) for f, g, w in facts if g != w]
-                chk.expect(not bad, "R-C05-8", "the companion of %s competes with the weight of its original (class, priority, control type) and sets %s" % (what, want_status.name),
+                chk.expect(not bad, rule, "the companion of %s competes with the weight of its original (class, priority, control type) and sets %s" % (what, want_status.name),
                            loc(fn_), "conflicts between triggered controls are settled by priority among the controls the simulator runs: a companion with another priority "
                            "overrides (or yields to) controls its original would not", expected="same as the original", found=bad or None)
         if n < 8:
-            raise ExtractError("R-C05-8: only %d setting / speed actions found in the fixture model" % n)
+            raise ExtractError(rule + ": only %d setting / speed actions found in the fixture model" % n)
     except ProgramError as e:
-        chk.bad("R-C05-8", "the simulator builds its valve / pump controls on the fixture model", loc(vfn), "the repository's own code (interpreted) raised", found="%s (line %s)" % (e, e.lineno))
+        chk.bad(rule, "the simulator builds its valve / pump controls on the fixture model", loc(vfn), "the repository's own code (interpreted) raised", found="%s (line %s)" % (e, e.lineno))
     except Unsupported as e:
-        raise ExtractError("R-C05-8: %s" % e)
+        raise ExtractError("%s: %s" % (rule, e))
 
 
 def run(repo, chk):
